@@ -207,7 +207,7 @@ func phaseSeed(phase string) uint64 {
 // stays well under a minute idle, a few minutes with the machine saturated).
 var quickScale = map[string]int{
 	"C01": 4, "C02": 4, "C04": 3, "C05": 2, "C06": 3, "C07": 3, "C09": 3, "C11": 5, "C12": 5, "C13": 15, "C14": 5,
-	"C15": 3, "C16": 5, "C17": 3, "C18": 3, "C19": 3, "C22": 3, "C24": 4, "C25": 4, "C27": 2,
+	"C15": 3, "C16": 5, "C17": 3, "C18": 3, "C19": 3, "C21": 2, "C22": 3, "C24": 4, "C25": 4, "C27": 2,
 }
 
 func count(quickN, thoroughN int) int {
